@@ -50,6 +50,15 @@ Theorem C19_mps_store_wf : forall (shapes : list (list nat)) (r : nat) (m : mpt)
 Proof. exact mps_from_list_wf. Qed.
 Print Assumptions C19_mps_store_wf.
 
+(* value level: the zero-padded tensors of constant_product_state (a single 1 at [0,0,sv] resp. [0,sv],
+   tied entry by entry to the code) contract along the chain, summing every bond index over its full
+   padded range, to the product basis state: 1 at (sv,...,sv), 0 elsewhere, for every padding >= 1 *)
+Theorem C19_mps_product_state_value : forall (sv : nat) (bonds ps : list nat),
+  bonds <> [] -> Forall (fun d => 1 <= d) bonds -> length ps = S (length bonds) ->
+  mps_val sv bonds ps = (if forallb (fun p => p =? sv) ps then 1%Z else 0%Z).
+Proof. exact mps_product_state_value. Qed.
+Print Assumptions C19_mps_product_state_value.
+
 (* ---- stars and forks built through add_chain_node / add_*_chain_node ----------------------------- *)
 Theorem C19_star_store_wf : forall (center : list nat) (calls : list (list nat * nat)) (m : star),
   star_build center calls = Some m -> wfb (sst m) = true.
